@@ -7,7 +7,9 @@ from . import common as C
 LEVEL = "exploration"
 RULE = ("natural runs over budget (N_init..500D) x max_iter x tol_mesh x complete_poll x accelerate_mesh x search_n_try x noise "
         "mode x landscape (incl. all-improving ramps and never-improving needles), PLUS outcome injection: the candidate filter "
-        "is wrapped to return 0..k rows on a scripted pattern at the search / ES / poll call sites, which produces controller "
+        "is wrapped to return 0..k rows on a scripted pattern at the search / ES / poll call sites, and (20% of deterministic runs) the "
+        "TARGET VALUES themselves follow a per-phase outcome script over {success, incremental, fail, tie} (cached per point, so still a "
+        "function of x): together these produce controller "
         "histories (empty search sets, polls with 0..2D evaluations, long non-evaluating stretches) natural runs do not show. "
         "Safety clauses are exact (independent call counter vs budget / func_count / max_iter / message). Liveness is restated "
         "as bounded progress checked by the loop probe at the end of EVERY main-loop iteration (the probe aborts a run that "
@@ -62,6 +64,11 @@ def cases(tier, seed):
         if cons == "hyperplane":
             geom = "lin"
         spec = gen.make_spec(rng, D=D, geom=geom, x0mode=x0mode, land=land, mode=mode, cons=cons, options=opts, max_fun_evals=mfe)
+        if rng.random() < 0.2 and mode == "det" and cons == "none":
+            # scripted outcome sequences at the target (see runmon._scripted_value)
+            pats = ["S", "F", "SF", "SSSF", "IF", "I", "FFFS", "T", "ST", "SIF", "FFFFFFFS"]
+            spec["target"] = {"kind": "scripted", "c": spec["target"]["c"], "where": "in",
+                              "search": pats[int(rng.integers(len(pats)))], "poll": pats[int(rng.integers(len(pats)))], "other": "F"}
         case = {"spec": spec, "kind": kind}
         if rng.random() < 0.3:
             case["filter_script"] = {"pattern": PATTERNS[int(rng.integers(len(PATTERNS)))],
@@ -94,6 +101,8 @@ def summarize(records, tier, seed):
              "max_consecutive_non_evaluating_iterations": max([r.get("max_consec_noeval") or 0 for r in records] + [0]),
              "runs_with_non_evaluating_iterations": sum(1 for r in records if (r.get("max_consec_noeval") or 0) > 0),
              "injected_runs": sum(1 for r in records if r.get("injected")),
+             "scripted_outcome_runs": sum(1 for r in records if r["case"]["spec"]["target"]["kind"] == "scripted"),
+             "scripted_outcomes_delivered": C.count_sum(records, "scripted_outcomes."),
              "aborts_by_other_defects": C.other_property_aborts(records, "C03")}
     inconc = None
     if cnt.get("C03.loop_iters", 0) == 0:
